@@ -118,7 +118,6 @@ func (ex *Exec) pickRunnable(except *gor) *gor {
 // switchAway parks the current goroutine and runs another runnable one.
 // The caller must have set g.blocked if it is to stay parked until unblocked.
 func (ex *Exec) switchAway() {
-	s := ex.sched
 	g := ex.curG
 	n := ex.pickRunnable(g)
 	if n == nil {
@@ -127,6 +126,13 @@ func (ex *Exec) switchAway() {
 		}
 		panic(pathEnd{kind: "deadlock", msg: "all goroutines are blocked"})
 	}
+	ex.switchTo(n)
+}
+
+// switchTo hands the baton to n and parks the current goroutine until it is woken again.
+func (ex *Exec) switchTo(n *gor) {
+	s := ex.sched
+	g := ex.curG
 	ex.curG = n
 	n.wake <- struct{}{}
 	<-g.wake
